@@ -184,3 +184,119 @@ class RavelMultiplier(Kernel):
 
 
 KERNELS.append(RavelMultiplier())
+
+
+class RavelAssign(Kernel):
+    """local region of _ravel, step 2: one coordinate per axis of the target expression (the caller's coordinate for a bracketed axis, an arange for a vectorised axis)"""
+    id = "C14.P.ravel_assign"
+    prop = "C14"
+    file = "einx/_src/adapter/decomposednamedtensor_from_classical.py"
+    module = "einx._src.adapter.decomposednamedtensor_from_classical"
+    qual = "_ravel"
+    describe = ("after step 2 there is exactly one coordinate per target axis: for the k-th axis, the b-th caller coordinate (with its expression) if the axis is bracketed and b bracketed axes precede it, "
+                "otherwise arange(axis length) under a copy of the axis as its expression; every caller coordinate is consumed (as many coordinates as bracketed axes: call-site precondition); no IndexError")
+
+    def region(self, fnode):
+        import ast
+        body = fnode.body
+        loops = [i for i, st in enumerate(body) if isinstance(st, ast.For) and ast.unparse(st.target) == "axis" and ast.unparse(st.iter) == "expr_tensor"]
+        if len(loops) != 1:
+            raise LookupError("anchor `for axis in expr_tensor:` not found exactly once in _ravel")
+        i = loops[0]
+        if not (ast.unparse(body[i - 2]) == "coords2 = []" and ast.unparse(body[i - 1]) == "expr_coords2 = []" and ast.unparse(body[i + 1]) == "coords = coords2" and ast.unparse(body[i + 2]) == "expr_coords = expr_coords2"):
+            raise LookupError("the statements around `for axis in expr_tensor:` are not the expected initialisation / hand-over")
+        return body[i - 2 : i + 3]
+
+    def setup(self, eng, bound=None):
+        n, m = z3.Ints("n_axes n_coords")
+        ax, C, E = z3.Array("expr_tensor", I, Obj), z3.Array("coords", I, Obj), z3.Array("expr_coords", I, Obj)
+        self.n, self.m, self.ax, self.C, self.E = n, m, ax, C, E
+        marked = uf("in_brackets", Obj, B)
+        isM = self.isM = lambda t: marked(ax[t])  # noqa
+        cnt = self.cnt = z3.Function("cnt_bracketed", I, I)
+        i = z3.Int("i")
+        eng.axioms += [cnt(0) == 0, z3.ForAll([i], z3.Implies(z3.And(0 <= i, i < n), cnt(i + 1) == cnt(i) + z3.If(isM(i), 1, 0)))]
+        # ghost lemma L5 (monotone counting), instantiated for the pair (i + 1, n) as an axiom schema: cnt(j) <= cnt(n) for 0 <= j <= n
+        eng.axioms += [z3.ForAll([i], z3.Implies(z3.And(0 <= i, i <= n), z3.And(0 <= cnt(i), cnt(i) <= cnt(n))))]
+        eng.assumed.add("ghost lemma L5 partial_sums_monotone (lemmas/Lemmas.lean, checked by Lean 4 + Mathlib): cnt(j) <= cnt(n) for j <= n, cnt = partial sums of a 0/1 indicator")
+        self.arange = uf("classical.arange", I, Obj, Obj)
+        self.copy = uf("axis_deepcopy", Obj, Obj)
+        eng.int_attrs = set(eng.int_attrs) | {"value"}
+        value = uf("attr_value", Obj, I)
+        self.value = value
+        dt = z3.Const("coord_dtype", Obj)
+        eng.contracts.update({"stage3.is_in_brackets": SContract(lambda e, p, av, kw: SBool(marked(av[0].t))),
+                              "classical.arange": SContract(lambda e, p, av, kw: SObj(self.arange(av[0].t, kw["dtype"].t)), "classical.arange(length, dtype=)"),
+                              "axis.__deepcopy__": SContract(lambda e, p, av, kw: SObj(self.copy(p.lookup("axis").t)), "axis.__deepcopy__()")})
+        eng.local_types = {"coords2": ("list", "obj"), "expr_coords2": ("list", "obj")}
+        self.dt = dt
+
+        def inv(e, p, it):
+            c2, e2 = e.as_seq(p.lookup("coords2"), p, ek="obj"), e.as_seq(p.lookup("expr_coords2"), p, ek="obj")
+            rc, re_ = e.as_seq(p.lookup("coords"), p, ek="obj"), e.as_seq(p.lookup("expr_coords"), p, ek="obj")
+            t = fresh("t")
+            return z3.And(c2.n == it, e2.n == it, rc.n == m - cnt(it), re_.n == m - cnt(it),
+                          z3.ForAll([t], z3.Implies(z3.And(0 <= t, t < rc.n), z3.And(z3.Select(rc.arr, t) == C[cnt(it) + t], z3.Select(re_.arr, t) == E[cnt(it) + t]))),
+                          z3.ForAll([t], z3.Implies(z3.And(0 <= t, t < it), z3.And(
+                              z3.Select(c2.arr, t) == z3.If(isM(t), C[cnt(t)], self.arange(value(ax[t]), dt)),
+                              z3.Select(e2.arr, t) == z3.If(isM(t), E[cnt(t)], self.copy(ax[t]))))))
+
+        eng.invariants[0] = inv
+        k = z3.Int("k")
+        pre = [n >= 0, m == cnt(n), z3.ForAll([k], z3.Implies(z3.And(0 <= k, k < n), uf("is_stage3.Axis", Obj, B)(ax[k])))]
+        env = {"expr_tensor": SSeq(ax, n, "obj", "list"), "coords": SSeq(C, m, "obj", "list"), "expr_coords": SSeq(E, m, "obj", "list"), "coord_dtype": SObj(dt),
+               "classical": SObj(z3.Const("classical", Obj)), "stage3": SObj(z3.Const("stage3", Obj))}
+        return env, pre, {}
+
+    def post(self, eng, out, p):
+        if isinstance(out, Raise):
+            eng.oblige(f"post:no {out.cls}", p, z3.BoolVal(False), "post")
+            return
+        c2, e2 = eng.as_seq(p.lookup("coords"), p, ek="obj"), eng.as_seq(p.lookup("expr_coords"), p, ek="obj")
+        t = fresh("t")
+        eng.oblige("post:one coordinate and one coordinate expression per target axis", p, z3.And(c2.n == self.n, e2.n == self.n), "post")
+        eng.oblige("post:bracketed axis k gets the caller's cnt(k)-th coordinate, a vectorised axis gets arange(its length)", p,
+                   z3.ForAll([t], z3.Implies(z3.And(0 <= t, t < self.n), z3.Select(c2.arr, t) == z3.If(self.isM(t), self.C[self.cnt(t)], self.arange(self.value(self.ax[t]), self.dt)))), "post")
+        eng.oblige("post:with the matching expression (the caller's, or a copy of the axis)", p,
+                   z3.ForAll([t], z3.Implies(z3.And(0 <= t, t < self.n), z3.Select(e2.arr, t) == z3.If(self.isM(t), self.E[self.cnt(t)], self.copy(self.ax[t])))), "post")
+
+    def twin(self, tier):
+        """native: get_at through the public API with bracketed axes at every position pattern of a rank <= 4 target, against explicit loops"""
+        import itertools
+        import numpy as np
+        import einx
+        n, fails = 0, []
+        for r in range(1, 5):
+            for pat in itertools.product([0, 1], repeat=r):
+                if not any(pat):
+                    continue
+                n += 1
+                shape = tuple(range(2, 2 + r))
+                x = np.arange(int(np.prod(shape))).reshape(shape)
+                names = [f"x{i}" for i in range(r)]
+                mk = [i for i, b in enumerate(pat) if b]
+                un = [i for i, b in enumerate(pat) if not b]
+                rng = np.random.RandomState(n)
+                P = 3
+                coords = np.stack([rng.randint(0, shape[i], size=P) for i in mk], axis=-1)
+                desc = " ".join(f"[{nm}]" if b else nm for nm, b in zip(names, pat)) + f", p [{len(mk)}] -> p " + " ".join(names[i] for i in un)
+                try:
+                    got = np.asarray(einx.get_at(desc, x, coords))
+                except Exception as e:  # noqa
+                    fails.append({"detail": f"einx.get_at({desc!r}) raised {type(e).__name__}: {e}"})
+                    continue
+                exp = np.zeros((P,) + tuple(shape[i] for i in un), dtype=x.dtype)
+                for p_ in range(P):
+                    for idx in itertools.product(*[range(shape[i]) for i in un]):
+                        full = [0] * r
+                        for i, v in zip(un, idx):
+                            full[i] = v
+                        for j, i in enumerate(mk):
+                            full[i] = coords[p_, j]
+                        exp[(p_,) + idx] = x[tuple(full)]
+                if got.shape != exp.shape or not np.array_equal(got, exp):
+                    fails.append({"detail": f"einx.get_at({desc!r}, shape {shape}) differs from the explicit loop"})
+        return n, fails[:3]
+
+
+KERNELS.append(RavelAssign())
